@@ -122,10 +122,20 @@ def main(argv=None):
     except tlc.MachineryError as e:
         print('MACHINERY-ERROR', pid, str(e)[:6000])
         return 2
-    except Exception:
+    except Exception as e:  # noqa: BLE001
         traceback.print_exc()
-        print('MACHINERY-ERROR', pid, 'unexpected exception in the harness')
-        return 2
+        tb = traceback.extract_tb(e.__traceback__)
+        inner = tb[-1] if tb else None
+        from_impl = [fr for fr in tb if fr.filename.startswith(REPO + '/pyerrors')]
+        if from_impl and (inner.filename.startswith(REPO + '/pyerrors') or '/site-packages/' in inner.filename):
+            # a public call that succeeds on every input of this driver on a conforming tree raised inside pyerrors:
+            # the implementation left the behaviour the specification describes
+            where = '%s:%s in %s' % (os.path.basename(from_impl[-1].filename), from_impl[-1].lineno, from_impl[-1].name)
+            ctx.rejects.append(('driver', 'pyerrors raised %s where the specification defines a result (%s)' % (type(e).__name__, where)))
+            mod = importlib.import_module('harness.props.' + pid.lower())
+        else:
+            print('MACHINERY-ERROR', pid, 'unexpected exception in the harness')
+            return 2
 
     known_file = [k for k in load_known() if k['property'] == pid and k.get('status', 'open') == 'open']
     listed = {k['what'] for k in known_file}
